@@ -123,7 +123,14 @@ pub fn run(seed: u64, n: usize, out: &mut Out, tier: &str) {
             let body = if exc && r.pct(25) { String::new() } else { r.pick(&bodies).to_string() };
             rules.push((r.pick(&locs).to_string(), exc, body));
         }
-        let lines: Vec<String> = rules.iter().map(|(l, x, b)| format!("{}{}+js({})", l, if *x { "#@#" } else { "##" }, b)).collect();
+        // an exception with a negated location is an error (double negation): it neither removes nor adds anything
+        let mut rejected: Vec<String> = vec![];
+        if r.pct(30) {
+            let l = r.pick(&["~example.com", "~sub.example.*", "other.org,~example.com", "~x.sub.example.com,~example.*"]);
+            rejected.push(format!("{}#@#+js({})", l, r.pick(&bodies)));
+        }
+        let mut lines: Vec<String> = rules.iter().map(|(l, x, b)| format!("{}{}+js({})", l, if *x { "#@#" } else { "##" }, b)).collect();
+        lines.extend(rejected.iter().cloned());
         let mut e = Engine::from_rules_parametrised(&lines, Default::default(), true, true);
         e.use_resources(vec![mk_resource("fnlet.js", &[], ResourceType::Mime(MimeType::ApplicationJavascript), "function fnlet(a, b, c) { BODY_FNLET }", 0)]);
         for host in hosts {
